@@ -66,6 +66,26 @@ def custom_schemas():
         s[j]["sign"] = ["ksk_current", "ksk_next"]
         s[j]["publish"] = ["ksk_next"]
         out[f"revoke-at@{j}"] = s
+    # a KSK that signs un-revoked, is revoked in one slot, and is gone afterwards: the un-revoked signature of the early slots
+    # still obliges it to stay published later (the exemption is per bundle, for the bundle in which the key is revoked)
+    for j in range(2, 9):
+        s = {}
+        for i in range(1, 10):
+            if i < j:
+                s[i] = {"publish": ["ksk_current", "ksk_next"], "sign": ["ksk_current"], "revoke": []}
+            elif i == j:
+                s[i] = {"publish": ["ksk_next"], "sign": ["ksk_current", "ksk_next"], "revoke": ["ksk_current"]}
+            else:
+                s[i] = {"publish": ["ksk_next"], "sign": ["ksk_next"], "revoke": []}
+        out[f"sign-revoke-drop@{j}"] = s
+        s2 = {k: {kk: list(vv) for kk, vv in v.items()} for k, v in s.items()}
+        for i in range(j + 1, 10):
+            s2[i]["publish"] = ["ksk_current", "ksk_next"]          # stays published: fine
+        out[f"sign-revoke-keep@{j}"] = s2
+        s3 = {k: {kk: list(vv) for kk, vv in v.items()} for k, v in s.items()}
+        if j + 1 <= 9:
+            s3[j + 1]["publish"] = ["ksk_current", "ksk_next"]      # published once more, then dropped
+        out[f"sign-revoke-publish-drop@{j}"] = s3
     return out
 
 
@@ -109,7 +129,8 @@ T0 = dt.datetime(2026, 1, 1, tzinfo=UTC)
 names = list(ALL)
 pairs = [(a, b) for a in SCHEMAS for b in SCHEMAS] + [(a, b) for a in SCHEMAS for b in ALL if b not in SCHEMAS]
 if TIER == "quick":
-    pairs = [p for p in pairs if p[1] in SCHEMAS] + R.sample([p for p in pairs if p[1] not in SCHEMAS], 110)
+    must = [p for p in pairs if p[0] == "normal" and p[1].startswith("sign-revoke")]
+    pairs = [p for p in pairs if p[1] in SCHEMAS] + must + R.sample([p for p in pairs if p[1] not in SCHEMAS and p not in must], 110)
 _cache = {}
 
 
@@ -139,6 +160,8 @@ for (a, b) in pairs:
         pol_new = ksrxml.default_zsk_policy(publish_safety=ps, retire_safety=rs)
         new = simulated(b, "new", start, pol_new)
         fl = R.random()
+        if b.startswith("sign-revoke") and (start, ps, rs) == variants[0]:
+            fl = 0.5                                     # both checks on for the plain-timing variant of these schemas
         pol = RequestPolicy(check_keys_publish_safety=fl < 0.8, check_keys_retire_safety=(0.1 < fl < 0.9) or fl > 0.95)
         kl, kn = skrgen.k_response(last), skrgen.k_response(new)
         r = vlib.run_impl(check_last_skr_and_new_skr, kl, kn, pol)
